@@ -33,12 +33,18 @@ Print Assumptions C17_percentages_not_decisive.
 
 (* ---- tie: profiler/profiler.py as REGENERATED from the source on this run (Gen/ProfilerGen.v over
    Model/ProfFrame.v; str(float) is a parameter) equals the model's result rendered as strings, error
-   cases included, and satisfies the C17 clauses for all 1 <= n < 2^31 *)
+   cases included, and satisfies the C17 clauses for all 1 <= n < 2^31.  The tables include columns that
+   hold None AND NaN: the source counts the missing value once itself (len(S.dropna().unique()), + 1 if a
+   cell is missing), so the well-formedness hypothesis only relates the PRESENT cells to value ids
+   (ProfilerRefineUniq.abstracts); closed instance: ProfilerRefineModel.ex_mixed_missing *)
 From SSJ Require Import Frame ProfFrame ProfilerGen ProfilerRefineUniq ProfilerRefineBase ProfilerRefine ProfilerRefineModel ProfilerGenC17.
 Theorem generated_profiler_refines_model :
   ltac:(let t := type of profile_table_for_join_rows_refines_model in exact t).
 Proof. exact profile_table_for_join_rows_refines_model. Qed.
 Print Assumptions generated_profiler_refines_model.
+Example generated_profiler_none_and_nan :
+  ltac:(let t := type of ex_mixed_missing in exact t).
+Proof. exact ex_mixed_missing. Qed.
 Theorem generated_profiler_C17 :
   ltac:(let t := type of C17_generated in exact t).
 Proof. exact C17_generated. Qed.
